@@ -640,6 +640,10 @@ fn d_per_lp_ok2(amp: u64, before: &Obs, after: &Obs, slack: Option<(usize, u128)
 }
 
 struct SwapDone {
+    /// Some(true): the leg was compared with the independent curve and lies within the solver
+    /// dust (2 units of D, 2 base units of the ask asset); Some(false): it does not; None: the
+    /// comparison did not apply (a reserve below 10^4)
+    curve_ok: Option<bool>,
     ret: u128,
 }
 
@@ -744,7 +748,8 @@ fn do_swap(s: &mut Pool3, ctx: &mut Ctx, actor: usize, from: usize, to: usize, a
         ctx.fail("C04", "fee_exact", "fee_ne_floor_share_gross", None, format!("gross {gross}: fees {:?} expected {:?}", [prot, swapf, burn], f));
     }
     // C04: gross within the slope box of the independent curve at the documented amplification
-    if ctx.on("C04") && before.reserves.iter().all(|v| *v >= 10_000) && amount >= 1 {
+    let mut curve_ok: Option<bool> = None;
+    if ctx.on("C04") && before.reserves.iter().all(|v| *v >= 10_000) {
         let x_new = before.reserves[from].saturating_add(amount);
         let mut ok_any = false;
         let mut detail = String::new();
@@ -776,6 +781,7 @@ fn do_swap(s: &mut Pool3, ctx: &mut Ctx, actor: usize, from: usize, to: usize, a
                 if reserve_after + tol < y0 { worst_short = y0 - reserve_after - tol; }
             }
         }
+        curve_ok = Some(ok_any);
         if !ok_any {
             let allow = imbalance_dust(&before.reserves, to);
             let known = if allow > 0 && worst_short <= w(allow) { Some("D18") } else { None };
@@ -800,7 +806,7 @@ fn do_swap(s: &mut Pool3, ctx: &mut Ctx, actor: usize, from: usize, to: usize, a
             ctx.fail("C14", "third_party_untouched", opname, None, format!("user {u} changed"));
         }
     }
-    Some(SwapDone { ret })
+    Some(SwapDone { ret, curve_ok })
 }
 
 fn do_provide(s: &mut Pool3, ctx: &mut Ctx, actor: usize, amounts: [u128; 3], slippage: &Option<String>, fault: Fault, opname: &str) -> bool {
@@ -956,9 +962,15 @@ pub fn apply(s: &mut Pool3, step: &Step, ctx: &mut Ctx) {
                         let profit = d2.ret.saturating_sub(*amount);
                                                 let r_now = s.observe().map(|o| o.reserves).unwrap_or([0; 3]);
                         let allow = imbalance_dust(&r_now, *from);
-                        // each leg may exceed the exact curve by up to 2 base units (D and y are each
-                        // solved to within 1 unit and the contract gives 1 unit back): 4 for the round trip
-                        let known = if profit <= 4 { Some("D14") } else if allow > 0 && profit <= allow { Some("D18") } else { None };
+                        // D14: each leg may exceed the exact curve by the solver dust (D solved to
+                        // within 2 units, y to within 2 base units of the ask asset). Both legs were
+                        // compared with the independent curve inside do_swap: when both lie within
+                        // that dust the curve itself is path independent, so the whole profit is the
+                        // dust of one leg valued at the pool's price (in a skewed pool one unit of
+                        // the scarce asset is worth many of the abundant one). Where the comparison
+                        // did not apply (a reserve below 10^4) the bound is 4 base units.
+                        let legs_dust = d1.curve_ok == Some(true) && d2.curve_ok == Some(true);
+                        let known = if legs_dust || (d1.curve_ok.is_none() || d2.curve_ok.is_none()) && profit <= 4 { Some("D14") } else if allow > 0 && profit <= allow { Some("D18") } else { None };
                         ctx.fail("C04", "there_and_back", "profit", known, format!("amp {} fees {:?}: {amount} of {from} -> {} of {to} -> {} of {from} (profit {profit})", s.amp_lin(), s.cfg.fees, d1.ret, d2.ret));
                     }
                 }
